@@ -116,4 +116,14 @@ PROPS = {
         assumptions=["the server's store satisfies C04 (contiguous tail..head)", "stream deadlines are real time: 'no hang' is observed as answering within 2 s",
                      "reads = headers the server asks its store for (GetRange widths, Get, GetByHeight); Head() used for clamping is a pointer read"],
     ),
+    "C06": dict(
+        props_files=["GoHeader/Props/C06.lean"], gen=[], block=True,
+        canon=store_canon, nontrivial=lambda b: "crash k=" in b or "faults=" in b,
+        rule="seeded random append/delete/restart histories on a write-logging datastore (plain and context-aware); a fresh real Store is opened on EVERY prefix of the commit log "
+             "(each direct write / batch commit atomic), observed, the chain's continuation appended and Head observed again; plus histories with 1..3 consecutive failing flush commits at a random position; "
+             "distinct = distinct (config, op list); non-trivial = has crash images or injected faults",
+        trusted_base=STORE_TB + ["which prefixes of the commit log can occur (atomicity of a batch commit, ordering of direct writes) is taken from the recording datastore, not from the model"],
+        assumptions=["a crash leaves exactly a prefix of the datastore's commit log", "faults are injected into flush commits only (not into DeleteRange's direct writes)"],
+        timeout={"quick": 600, "thorough": 3000},
+    ),
 }
